@@ -2,7 +2,7 @@ ENGINES = [
     {"name": "csym", "path": "vt/csym.py", "serves_properties": ["C01", "C02", "C03", "C10", "C13", "C14", "C17", "C18"],
      "kind_free_text": "symbolic interpreter of traits/ctraits.c over clang's JSON AST (regenerated from the current source on every run), "
                        "CPython API contracts in vt/capi.py, shared path condition with symx; memory-safety assertions on every path"},
-    {"name": "symx", "path": "vt/symx.py", "serves_properties": ["C01", "C03", "C04", "C05", "C06", "C07", "C09", "C11", "C13", "C15", "C17", "C20"],
+    {"name": "symx", "path": "vt/symx.py", "serves_properties": ["C01", "C03", "C04", "C05", "C06", "C07", "C09", "C11", "C13", "C15", "C17", "C19", "C20"],
      "kind_free_text": "symbolic execution of the real Python code on z3-backed proxies (DFS over decision prefixes by re-execution), "
                        "environment models for built-ins (vt/envmodels.py), concrete replay of every counterexample and one witness per path"},
 ]
@@ -200,4 +200,16 @@ CHECKS["C11"] = dict(
     note="Part (b) is exhaustive bounded enumeration (the compiled code runs concretely; the solver contributes choice feasibility only). "
          "Known finding: wildcard prefix styles never notify. getattr_delegate/setattr_delegate are not interpreted symbolically (type-slot "
          "calls and instance-trait cloning would need models beyond the time available): said in DESIGN.md.")
+CHECKS["C19"] = dict(
+    text="(1) Solver-decided k-th-invocation faults: the real TraitList / TraitDict / TraitSet mutators run on proxies with an item "
+         "validator that raises at its q-th invocation, q an unbounded symbolic Int compared with a call counter, exception class symbolic "
+         "among TraitError/ValueError/AttributeError/RuntimeError: on failure contents and event log are exactly as before, the exception "
+         "reaches the caller unchanged, a follow-up operation behaves as on a fault-free twin; fault-free paths equal the twin. "
+         "(2) HasTraits-level callbacks through the compiled code (8 scenarios x 4 exception classes): custom validator, _name_default, "
+         "property setter, cached observed getter failing on a read / inside the notification, legacy depends_on getter, change handler, "
+         "PrototypedFrom validator: outcome-deciding callbacks leave no effect, handlers neither undo the operation nor starve other "
+         "handlers, and later operations behave as if the failure never happened.",
+    design_ref="DESIGN.md section 4 C19", technique="symbolic execution of the real Python code with z3 (symx) with a symbolic fault index; bounded exploration through the compiled extension for HasTraits-level callbacks",
+    note="Part (2): choice feasibility only. Adapter-factory faults are covered by C17's symbolic factory outcomes (None results, not "
+         "raising factories). Outside: faults in handlers that mutate notifier lists, threads.")
 NOT_APPLICABLE = {p: NOT_BUILT for p in ["C%02d" % i for i in range(1, 21)]}
